@@ -61,7 +61,7 @@ func (s *recSource) mark(code int, w http.ResponseWriter) {
 	w.WriteHeader(http.StatusOK)
 }
 
-func (s *recSource) GetIngresses() *ingress.Ingresses                     { return s.ing }
+func (s *recSource) GetIngresses() *ingress.Ingresses                      { return s.ing }
 func (s *recSource) Login(w http.ResponseWriter, r *http.Request)          { s.mark(1, w) }
 func (s *recSource) LoginCallback(w http.ResponseWriter, r *http.Request)  { s.mark(2, w) }
 func (s *recSource) Logout(w http.ResponseWriter, r *http.Request)         { s.mark(3, w) }
@@ -85,11 +85,11 @@ type rtConfig struct {
 }
 
 type rtInstance struct {
-	c    rtConfig
-	src  *recSource
-	rt   chi.Router
-	pfx  []string // as the implementation reports them (Ingresses.Paths()), sorted
-	ptok string
+	c       rtConfig
+	src     *recSource
+	rt      chi.Router
+	pfx     []string // as the implementation reports them (Ingresses.Paths()), sorted
+	ptok    string
 	nTarget int
 }
 
